@@ -48,6 +48,7 @@ def run(ctx):
     ctx.do(rule_version_scope)
     ctx.do(rule_detector_reads_registries)
     ctx.do(rule_reference_shape_by_name)
+    ctx.do(rule_reference_names_agree)
     ctx.do(rule_lookups_name_their_category)
     from .C02 import rule_definition_of_named_type
     ctx.do(rule_definition_of_named_type, rule_id="C19.builtin-parity")
@@ -397,9 +398,10 @@ def rule_reference_shape_by_name(ctx):
     for x in raising:
         cj = [norm(c_) for c_ in conjuncts(x.test)] + [norm(tt) for tt, pol, _ in guard_chain(x) if pol]
         t = " & ".join(cj)
-        if "== 'ref'" in t and ("isinstance(%s, %s)" % (pv, rv)) in t.replace("not ", "") and "ListProperty" not in t:
+        # the name test in either spelling: <tail> == 'ref'  /  <name>.endswith('_ref')
+        if ("== 'ref'" in t or ".endswith('_ref')" in t) and ("isinstance(%s, %s)" % (pv, rv)) in t.replace("not ", "") and "ListProperty" not in t:
             single = True
-        if "== 'refs'" in t and ("isinstance(%s, ListProperty)" % pv) in t and ("%s.contained" % pv) in t:
+        if ("== 'refs'" in t or ".endswith('_refs')" in t) and ("isinstance(%s, ListProperty)" % pv) in t and ("%s.contained" % pv) in t:
             plural = True
     unwraps = [a_ for a_ in body_walk(fi.node) if isinstance(a_, ast.Assign) and norm(a_.value).endswith(".contained")]
     run.check(single and plural and not unwraps, R, key(fi.module.relpath, fi.qualname, "shape-follows-singular-plural-name"),
@@ -731,3 +733,51 @@ def rule_type_grammar(ctx):
     run.check(reg == want and all(not guard_chain(n) for n in lens), R, key(rel, fi.qualname, "length-rule"),
               "type names outside 3..250 characters are not refused exactly", file=rel, line=fi.node.lineno, function=fi.qualname,
               expected=repr(want), found=repr(reg))
+
+
+def _name_classifiers(fi):
+    """{'ref': regex, 'refs': regex} -- the language of property names a function takes for singular / plural reference names,
+    read from its tests:  X.endswith('_ref')  ->  .*_ref ;  T == 'ref' with T = X.rsplit('_', 1)[-1]  ->  (.*_)?ref"""
+    import re as _re
+    tails = {norm(a_.targets[0]) for a_ in body_walk(fi.node) if isinstance(a_, ast.Assign) and isinstance(a_.value, ast.Subscript)
+             and isinstance(a_.value.value, ast.Call) and isinstance(a_.value.value.func, ast.Attribute)
+             and a_.value.value.func.attr in ("rsplit", "split") and norm(a_.value.slice) == "-1"
+             and a_.value.value.args and isinstance(a_.value.value.args[0], ast.Constant) and a_.value.value.args[0].value == "_"}
+    out = {}
+    for x in body_walk(fi.node):
+        if isinstance(x, ast.Call) and isinstance(x.func, ast.Attribute) and x.func.attr == "endswith" and len(x.args) == 1 \
+                and isinstance(x.args[0], ast.Constant) and isinstance(x.args[0].value, str) and x.args[0].value.lstrip("_") in ("ref", "refs"):
+            out.setdefault(x.args[0].value.lstrip("_"), []).append((".*" + _re.escape(x.args[0].value), x))
+        if isinstance(x, ast.Compare) and len(x.ops) == 1 and isinstance(x.ops[0], ast.Eq) and norm(x.left) in tails \
+                and isinstance(x.comparators[0], ast.Constant) and x.comparators[0].value in ("ref", "refs"):
+            out.setdefault(x.comparators[0].value, []).append(("(.*_)?" + x.comparators[0].value, x))
+    return out
+
+
+def rule_reference_names_agree(ctx):
+    """Sibling agreement (a contradiction needs no specification): the registration decides by NAME which properties must be
+    reference properties, and the constructor of 2.0 observables decides by NAME which properties it checks as references.
+    Both classify names as `..._ref` / `..._refs`; the two languages are compared by automata.  Where they differ, a name is
+    held to the reference rule at registration that nothing treats as a reference afterwards (a legal custom type is refused),
+    or the other way round."""
+    from ..regexnfa import pattern_included
+    run = ctx.run
+    prog = ctx.prog
+    R = "C19.validation-before-write"
+    reg = prog.func(REG + "::_validate_ref_props")
+    con = prog.func("stix2.base::_Observable._check_property")
+    a, b = _name_classifiers(reg), _name_classifiers(con)
+    if set(a) != {"ref", "refs"} or set(b) != {"ref", "refs"}:
+        raise AnalysisError("reference-name classifiers not recognised: registration %s, constructor %s" % (sorted(a), sorted(b)))
+    for kind in ("ref", "refs"):
+        pa, xa = a[kind][0]
+        pb, xb = b[kind][0]
+        w1 = pattern_included(pa, pb, 0, 0, "fullmatch", "fullmatch")
+        w2 = pattern_included(pb, pa, 0, 0, "fullmatch", "fullmatch")
+        run.check(w1 is None and w2 is None, R, key(reg.module.relpath, reg.qualname, "reference-names-agree:%s" % kind),
+                  "the registration and the constructor disagree on which property names are reference names: %r is one for %s only "
+                  "-- a custom type with a property of that name (IntegerProperty, say) is refused at registration although the name "
+                  "does not end in `_%s` and nothing else treats it as a reference" % (
+                      w1 if w1 is not None else w2, "the registration" if w1 is not None else "the constructor", kind),
+                  file=reg.module.relpath, line=xa.lineno, function=reg.qualname, expected="one classifier: name.endswith('_%s')" % kind,
+                  found="registration: /%s/  constructor: /%s/" % (pa, pb))
